@@ -133,6 +133,10 @@ class Inject(Exception):
     pass
 
 
+class Runaway(BaseException):
+    """the loop polls far more often than once per minute (it would never reach the end of the run in virtual time)"""
+
+
 class Broker(AsyncBroker):
     def __init__(self, case):
         super().__init__()
@@ -172,6 +176,8 @@ class Common:
         k = self.polls
         self.polls += 1
         St.log.append(("list_call", now_us(), self.idx, k))
+        if k > (self.case["end"] - self.case["start"]) // 60_000_000 + 8:
+            raise Runaway("source %d polled %d times" % (self.idx, k + 1))
         return k
 
     async def _wait(self, k):
